@@ -289,10 +289,22 @@ func SetExhaustive(prop, leg string) {
 	rec(prop, leg).Exhaustive = true
 }
 
+var atExit []func()
+
+// AtExit registers a function that Main runs after the tests (scratch clean-up).
+func AtExit(f func()) {
+	recMu.Lock()
+	atExit = append(atExit, f)
+	recMu.Unlock()
+}
+
 // Main must be called from TestMain of every check package.
 func Main(m *testing.M) {
 	code := m.Run()
 	flush()
+	for _, f := range atExit {
+		f()
+	}
 	os.Exit(code)
 }
 
